@@ -157,7 +157,7 @@ const (
 	edTagFlip             // arg: class bits ^0x40, ^0x80, ^0xC0, constructed bit ^0x20, high-tag-number form
 	edRetag               // arg: another universal tag
 	edIntSign             // INTEGER: flip the sign bit
-	edIntLead00           // INTEGER: prepend 0x00
+	edIntLead00           // any primitive: prepend one or two 0x00 octets (non-minimal INTEGER, zero-padded key or coordinate)
 	edIntLeadFF           // INTEGER: prepend 0xFF
 	edDelete              // remove the element
 	edDup                 // duplicate the element
@@ -171,7 +171,7 @@ const (
 )
 
 var editNames = [edKinds]string{"len+1", "len-1", "longform", "indefinite", "hugelen", "tagflip", "retag", "int-sign",
-	"int-lead00", "int-leadff", "delete", "dup", "swap", "nest", "empty", "grow", "shrink", "resize"}
+	"lead00", "int-leadff", "delete", "dup", "swap", "nest", "empty", "grow", "shrink", "resize"}
 
 var resizes = []int{1, 15, 16, 17, 33, 2, 8, 31, 64}
 
@@ -181,7 +181,7 @@ var retags = []byte{0x02, 0x04, 0x30, 0x05, 0x03, 0x06, 0x0c, 0x31}
 
 const retagsQuick, resizesQuick = 4, 5
 
-var editArgs = [edKinds]int{1, 1, 1, 1, 2, 5, len(retags), 1, 1, 1, 1, 1, 1, 3, 1, 1, 1, len(resizes)}
+var editArgs = [edKinds]int{1, 1, 1, 1, 2, 5, len(retags), 1, 2, 1, 1, 1, 1, 3, 1, 1, 1, len(resizes)}
 
 // editsPerNode is the number of (kind, arg) pairs tried at every node.
 var editsPerNode int
@@ -305,9 +305,9 @@ func emitNode(n *node, ed *edit, ok *bool) []byte {
 			return tlv(n.tag, c, lenMinimal)
 		}
 	case edIntLead00:
-		if isInt {
+		if n.tag[0]&0x20 == 0 {
 			*ok = true
-			return tlv(n.tag, append([]byte{0}, c...), lenMinimal)
+			return tlv(n.tag, append(make([]byte, 1+ed.arg), c...), lenMinimal)
 		}
 	case edIntLeadFF:
 		if isInt {
